@@ -11,7 +11,6 @@ Section Pointers.
   Hypothesis Hdec : forall S, dec_ok BUF dec S.
   Variable d : db.
   Hypothesis Hwf : wf_db d.
-  Hypothesis Hm : mult_ok d.
   Variables (f r : nat).
   Hypothesis Ef : nth_error (d_fields d) f = Some (FRaw r).
   Let rd := get_rd d r.
@@ -29,9 +28,9 @@ Section Pointers.
     assert (Hfo : 0 <= rd_foff rd).
     { destruct Hwf as (_ & Hr & Hfd & _). apply Hr. exact (Hfd _ _ Ef). }
     split.
-    - pose proof (here_raw BUF dec Hdec d Hwf f r Ef s1 n Hm HI1 Ho) as H. rewrite Hfp in H.
+    - pose proof (here_raw BUF dec Hdec d Hwf f r Ef s1 n HI1 Ho) as H. rewrite Hfp in H.
       apply H; lia.
-    - apply (get_spec BUF dec Hdec d Hwf s1 f (FRaw r) p n Hm HI1 Ef); lia.
+    - apply (get_spec BUF dec Hdec d Hwf s1 f (FRaw r) p n HI1 Ef); lia.
   Qed.
 
   (* sequential access: two consecutive GD_HERE-style reads cover contiguous samples: after reading
@@ -42,9 +41,9 @@ Section Pointers.
     snd (step dec d s' (CGet f None n2)) = RData (spec_window d f (k + len (spec_window d f k n)) n2).
   Proof.
     intros HI Hk Hn Hn2 Hne.
-    destruct (get_raw_ptr BUF dec Hdec d Hwf f r Ef s k n Hm HI ltac:(lia) ltac:(lia)) as (s1 & Hs & HI1 & Hp).
+    destruct (get_raw_ptr BUF dec Hdec d Hwf f r Ef s k n HI ltac:(lia) ltac:(lia)) as (s1 & Hs & HI1 & Hp).
     rewrite Hs. cbn [fst]. destruct (Hp Hne) as [Ho Hfp].
-    pose proof (here_raw BUF dec Hdec d Hwf f r Ef s1 n2 Hm HI1 Ho) as H. rewrite Hfp in H. apply H; [|lia].
+    pose proof (here_raw BUF dec Hdec d Hwf f r Ef s1 n2 HI1 Ho) as H. rewrite Hfp in H. apply H; [|lia].
     assert (len (spec_window d f k n) <= n).
     { unfold spec_window, len. pose proof (window_len (spec_val (FUEL d) d f) k (Z.to_nat n)). lia. }
     pose proof (len_nonneg (spec_window d f k n)). lia.
